@@ -23,7 +23,7 @@ ASSUMPTIONS = [
     "'unclosed transport' ResourceWarning is recorded but tolerated in exactly that situation",
     "external cancellation of a caller's task is outside the property's quantifier and is not driven",
 ]
-MUST = ["request_after_damaged_answer_with_trailing_bytes", "nothing_open_at_the_moment_of_return", "answered_request_right_after_a_rejected_one", "reconnect_after_failure", "reconnect_after_close", "reconnect_after_peerdrop", "reconnect_after_loop_change",
+MUST = ["keepalive_switched_off_mid_request", "request_after_damaged_answer_with_trailing_bytes", "nothing_open_at_the_moment_of_return", "answered_request_right_after_a_rejected_one", "reconnect_after_failure", "reconnect_after_close", "reconnect_after_peerdrop", "reconnect_after_loop_change",
         "keepalive_reuse", "no_keepalive_closed_after_request", "final_close_zero", "max_one_checked",
         "queued_caller_cancelled", "concurrent_close_and_requests", "setting_write_histories", "transparent_reconnect_checked", "two_objects_one_endpoint", "keepalive_option_rejected"]
 EXHAUSTIVE = {"quick": True, "thorough": True}
@@ -538,6 +538,62 @@ def same_endpoint_cases(part):
         part.see(f"same-endpoint|{fam}|{port}")
 
 
+def keepalive_toggle_cases(part):
+    """keep-alive is switched OFF while a request is in flight on the kept-alive connection (an application changing its mind, a config reload):
+    once that request has completed, keep-alive is off and nothing may remain open; switched ON mid-request, the connection stays for the next one"""
+    import asyncio
+    from .. import env, models
+    g = env.goodwe()
+    for fam, port in (("ET", 502), ("ET", 8899), ("DT", 502), ("ES", 8899)):
+        for at in (0.1, 0.4):
+            for how, single in (("answered", True), ("lost_then_answered", True), ("answered", False), ("lost_then_answered", False)):
+                sim = models.family_sim(fam)
+                obs = {}
+
+                async def flow(loop):
+                    inv = models.family_cls(g, fam)("inv0", port, 0, 1, 2)
+                    inv.set_keep_alive(True)
+                    await inv.read_device_info()
+                    obs["open_before"] = len(loop.open_transports())
+                    sim.delay = 0.6
+                    if how == "lost_then_answered":
+                        orig, seen = sim.handle, {"n": 0}
+
+                        def handle(req, kind):
+                            seen["n"] += 1
+                            return None if seen["n"] == 1 else orig(req, kind)
+                        sim.handle = handle
+                    loop.call_later(at, inv.set_keep_alive, False)
+                    try:
+                        await (inv.read_setting("modbus-47000") if single else inv.read_runtime_data())
+                        obs["out"] = "ok"
+                    except Exception as e:      # noqa
+                        obs["out"] = type(e).__name__
+                    obs["at_return"] = len(loop.open_transports())
+                    await asyncio.sleep(0)
+                    await asyncio.sleep(0)
+                    obs["settled"] = len(loop.live)
+                    sim.delay = 0.0
+                    await (inv.read_setting("modbus-47001") if single else inv.read_runtime_data())
+                    await asyncio.sleep(0)
+                    await asyncio.sleep(0)
+                    obs["after_next"] = len(loop.live)
+                run = engine.run_custom({("inv0", port): sim}, flow, vtime_cap=600, tx_cap=600)
+                part.evaluations += 1
+                tr = "udp" if port == 8899 else "tcp"
+                ctx = f"{fam} port {port}: keep-alive switched off {at} s into a {'single read' if single else 'poll'} on the kept-alive connection ({how})"
+                case = {"ka_toggle": True}
+                if run.stop or run.error is not None:
+                    part.violate(f"C10/{tr}/hang" if run.stop else f"C10/{tr}/next-request-fails", f"{ctx}: {run.stop or repr(run.error)}", case)
+                elif obs.get("out") != "ok":
+                    part.violate(f"C10/{tr}/next-request-fails", f"{ctx}: the poll ended {obs.get('out')}", case)
+                elif obs["at_return"] or obs["settled"] or obs["after_next"]:
+                    part.violate(f"C10/{tr}/open-after-request", f"{ctx}: open when the poll returned: {obs['at_return']}, after the loop settled: {obs['settled']}, "
+                                                                 f"after the next poll (keep-alive off): {obs['after_next']}", case)
+                else:
+                    part.count("keepalive_switched_off_mid_request")
+
+
 def sockopt_cases(part):
     """Modbus/TCP with keep-alive on a network stack that rejects a TCP keep-alive option (ENOPROTOOPT) on the first / on every
     connection: whatever the request's outcome, at most one socket is open at a time and none after close()"""
@@ -619,6 +675,7 @@ def run_shard(spec):
         setting_write_cases(part)
         same_endpoint_cases(part)
         sockopt_cases(part)
+        keepalive_toggle_cases(part)
         return part
     for d in range(0, spec["depth"]):
         for rest in itertools.product(ACTIONS, repeat=d):
